@@ -85,12 +85,16 @@ func gen(t *rapid.T) Case {
 		return c
 	}
 	doc := specgen.Spec(t, cfg())
+	// `swagger flatten` overflows the stack (a fatal error, not a panic) on a definition that is an array or map of
+	// itself: listed finding, kept out by construction because the commands run inside this process
+	specgen.BreakRecursiveContainers(doc)
 	sprinkle(t, doc)
 	c.Spec = specgen.JSONBytes(doc)
 	if c.Cmd == "mixin" {
 		n := rapid.IntRange(1, 2).Draw(t, "nmix")
 		for i := 0; i < n; i++ {
 			m := specgen.Spec(t, cfg())
+			specgen.BreakRecursiveContainers(m)
 			sprinkle(t, m)
 			c.Mixins = append(c.Mixins, specgen.JSONBytes(m))
 		}
